@@ -7,6 +7,8 @@ COPY="${VERIF_COPY:-/var/tmp/poster-verif-benign/repo}"
 mkdir -p "$COPY"
 rsync -a --delete --exclude target --exclude .git /repo/ "$COPY/"
 (cd "$COPY" && patch -p1 -s -f -i "$PATCH") || { echo "patch does not apply"; exit 9; }
+# rsync -a restores old mtimes: make sure cargo never reuses a build of the previous candidate
+find "$COPY/src" -name "*.rs" -exec touch {} +
 for p in $PIDS; do
   (cd /verif && ./check "$p" --repo "$COPY" --no-evidence 2>&1 | grep -E "^VIOLATION|^KNOWN|^UNDECIDED|^C[0-9]+:" | grep -v "violations=0 undecided=0" | cut -c1-260)
 done
